@@ -232,3 +232,69 @@ R.contract(
     modifies=["evaluator.count", "problem.ff.fn.ncalls", "all:dict", "all:field:phenotype"],
     props=["C15", "C16"],
 )
+
+# ---- remaining steps ---------------------------------------------------------------------------------------
+SEL = "geneticengine/algorithms/gp/operators/selection.py"
+MUT = "geneticengine/algorithms/gp/operators/mutation.py"
+CRO = "geneticengine/algorithms/gp/operators/crossover.py"
+NOV = "geneticengine/algorithms/gp/operators/novelty.py"
+EVS = "geneticengine/algorithms/gp/operators/evaluation.py"
+R.cls("TournamentSelection", bases=["GeneticStep"], fields={"tournament_size": "int", "with_replacement": "bool"}, file=SEL)
+R.cls("GenericMutationStep", bases=["GeneticStep"], fields={"probability": "float"}, file=MUT)
+R.cls("GenericCrossoverStep", bases=["GeneticStep"], fields={"probability": "float"}, file=CRO)
+R.cls("NoveltyStep", bases=["GeneticStep"], fields={}, file=NOV)
+R.cls("EvaluateStep", bases=["GeneticStep"], fields={}, file=EVS)
+
+R.contract(
+    "Representation.create_genotype",
+    params=dict(self="Representation", random="RandomSource", kwargs="any"),
+    returns="Genotype",
+    modifies=["random.*"],
+    fresh_result=False,
+    verify=False,
+    note="interface: may raise the library's own errors (not modelled here); result is some genotype",
+)
+R.contract(
+    "Representation.mutate",
+    params=dict(self="Representation", random="RandomSource", genotype="Genotype?", kwargs="any"),
+    returns="Genotype",
+    modifies=["random.*"],
+    verify=False,
+)
+R.contract(
+    "Representation.crossover",
+    params=dict(self="Representation", random="RandomSource", parent1="Genotype?", parent2="Genotype?", kwargs="any"),
+    returns="tuple[Genotype,Genotype]",
+    modifies=["random.*"],
+    verify=False,
+)
+R.contract(
+    "TournamentSelection.iterate",
+    file=SEL,
+    overrides="GeneticStep.iterate",
+    params=dict(self="TournamentSelection", **STEP_PARAMS),
+    returns="iter[Individual]",
+    requires={**STEP_REQ, **DISTINCT, "tournament_size_pos": "self.tournament_size >= 1", "nonempty_population": "avail(population) >= 1"},
+    ensures={
+        "members": "forall(0, len(result), lambda j: exists(0, old(avail(population)), lambda e: same(result[j], old(item(population, e)))))",
+    },
+    loops={
+        0: Loop(
+            invariants={
+                "count": "len(OUT) == _k",
+                "winners_are_members": "forall(0, _k, lambda j: exists(0, len(pool), lambda e: same(OUT[j], pool[e])))",
+                "candidates_are_members": "len(candidates) >= 1 and forall(0, len(candidates), lambda c: exists(0, len(pool), lambda e: same(candidates[c], pool[e])))",
+                "pool_evaluated": "len(pool) >= 1 and forall(0, len(pool), lambda e: problem in pool[e].fitness_store)",
+                "pool_is_input": "len(pool) == old(avail(population)) and forall(0, len(pool), lambda e: same(pool[e], old(item(population, e))))",
+            },
+            modifies=["OUT[]", "random.*"],
+        )
+    },
+    yield_asserts={
+        "winner_was_drawn": "exists(0, len(candidates), lambda c: same(yielded, candidates[c]))",
+        "winner_beats_every_participant": "forall(0, len(candidates), lambda c: "
+        "yielded.fitness_store[problem].maximizing_aggregate >= candidates[c].fitness_store[problem].maximizing_aggregate)",
+    },
+    modifies=["random.*", "evaluator.count", "problem.ff.fn.ncalls", "all:dict", "all:field:phenotype"],
+    props=["C15", "C17"],
+)
